@@ -185,7 +185,7 @@ func getAsStructOrSlice(data any) (out any, ok, wasStruct bool) {
 	}
 
 	switch v.Kind() {
-	case reflect.Struct:
+	case reflect.Struct, reflect.Map:
 		return v.Interface(), true, true
 	case reflect.Array, reflect.Slice:
 		if v.Len() == 0 {
@@ -275,6 +275,54 @@ func doForMapPerKey(valueThatShouldBeMap any, doFunc func(keyAsString string, ke
 			doFunc(mks, e, v)
 		}
 	}
+}
+
+// normalizeValue brings a value into the representation the functions work with, whatever Go types
+// carried it: pointers and interfaces are followed, numbers of any kind (named or not) become decimals,
+// named strings and bools become string and bool, and slices and arrays of any element type become
+// []any with normalized elements. Anything else (objects, nil, ...) is returned as it was passed.
+func normalizeValue(val any) any {
+	switch val.(type) {
+	case nil, decimal.Decimal, string, bool:
+		return val
+	}
+
+	v := reflect.ValueOf(val)
+	for v.Kind() == reflect.Pointer || v.Kind() == reflect.Interface {
+		if v.IsNil() {
+			return val
+		}
+		v = v.Elem()
+	}
+
+	if d, ok := decimalFromValue(v); ok {
+		return d
+	}
+
+	switch v.Kind() {
+	case reflect.String:
+		return v.String()
+	case reflect.Bool:
+		return v.Bool()
+	case reflect.Slice, reflect.Array:
+		if v.Kind() == reflect.Slice && v.IsNil() {
+			return val
+		}
+		if !v.CanInterface() {
+			return val
+		}
+		out := make([]any, v.Len())
+		for i := 0; i < v.Len(); i++ {
+			out[i] = normalizeValue(v.Index(i).Interface())
+		}
+		return out
+	}
+
+	if isNumberKind(v.Kind()) && v.CanInterface() {
+		return convertToDecimalIfNumber(v.Interface())
+	}
+
+	return val
 }
 
 // findMapKey returns the key of the map m that matches identName: the key that is exactly equal if there
